@@ -1,4 +1,3 @@
 package harness
 
-func (w *World) oracleC06(pre *Snapshot, op Op, res *StepResult, post *Snapshot) {}
-func (w *World) dispatchHostile(op Op)                                           {}
+func (w *World) dispatchHostile(op Op) {}
